@@ -6,6 +6,7 @@ import (
 	"fmt"
 	"math/big"
 	"strings"
+	"sync"
 	"testing"
 	"testing/synctest"
 	"time"
@@ -17,7 +18,7 @@ import (
 )
 
 func c09Case(rt *rapid.T, rec *vt.Rec) {
-	cfg := sessCfg{Driver: rapid.SampledFrom([]string{"memory", "memory", "badger"}).Draw(rt, "driver"), Price: big.NewInt(1000), Interval: time.Minute}
+	cfg := sessCfg{Driver: rapid.SampledFrom([]string{"memory", "memory", "badger"}).Draw(rt, "driver"), Price: big.NewInt(1000), Interval: time.Minute, Yield: true}
 	nHosts := rapid.IntRange(1, 3).Draw(rt, "nHosts")
 	s := newSession(rt, cfg, nHosts+1)
 	defer s.close()
@@ -120,7 +121,7 @@ func c09Case(rt *rapid.T, rec *vt.Rec) {
 	}
 	n := rapid.IntRange(3, 16).Draw(rt, "steps")
 	for k := 0; k < n; k++ {
-		op := rapid.SampledFrom([]string{"connect", "connect", "close", "close", "probe", "closeDuring", "reregDuring", "advance"}).Draw(rt, "op")
+		op := rapid.SampledFrom([]string{"connect", "connect", "close", "close", "probe", "closeDuring", "reregDuring", "failedReconnect", "reconnectRace", "advance"}).Draw(rt, "op")
 		switch op {
 		case "connect":
 			h := rapid.IntRange(0, nHosts-1).Draw(rt, "host")
@@ -153,6 +154,104 @@ func c09Case(rt *rapid.T, rec *vt.Rec) {
 		case "advance":
 			d := time.Duration(rapid.Int64Range(1, int64(3*time.Second)).Draw(rt, "advance"))
 			time.Sleep(d)
+		case "failedReconnect":
+			// the host re-registers on a new connection, but the registration FAILS in the store - while the old
+			// connection closes. Afterwards both connections are closed: nothing may be left registered.
+			var live []int
+			for i := 0; i < nHosts; i++ {
+				if _, ok := s.model.liveHost(s.agents[i].id.nodeID); ok {
+					live = append(live, i)
+				}
+			}
+			if len(live) == 0 {
+				continue
+			}
+			h := rapid.SampledFrom(live).Draw(rt, "victim")
+			cid, _ := s.model.liveHost(s.agents[h].id.nodeID)
+			var old *agentConn
+			for _, ac := range s.agents[h].conns {
+				if ac.id == cid {
+					old = ac
+				}
+			}
+			closeFirst := rapid.Bool().Draw(rt, "closeOldWhileStoreCallPending")
+			entered := make(chan struct{}, 4)
+			release := make(chan struct{})
+			s.ys.setHook(func(method string) error {
+				if method != "SetNode" {
+					return nil
+				}
+				entered <- struct{}{}
+				<-release
+				return errScripted
+			})
+			ac2 := s.openConn(h, "")
+			cdone := make(chan error, 1)
+			go func() { cdone <- s.connect(h, ac2, true, "geth", "") }()
+			<-entered
+			if closeFirst {
+				s.closeConn(old)
+			}
+			close(release)
+			cerr := <-cdone
+			s.ys.setHook(nil)
+			if cerr == nil {
+				fail("host connect succeeded although the store refused the node record")
+			}
+			if !closeFirst {
+				s.closeConn(old)
+			}
+			// the failed registration's connection goes away as well
+			s.model.open[ac2.id] = true
+			s.closeConn(ac2)
+			delete(s.model.current, s.agents[h].id.nodeID)
+			logf("host %s: registration on conn#%d fails in the store (old conn#%d closed %s); then conn#%d closes too", s.agents[h].id.name, ac2.id, old.id, map[bool]string{true: "while the store call was pending", false: "afterwards"}[closeFirst], ac2.id)
+			classes["failed-reconnect"] = true
+			classes["reconnect"] = true
+			classes["close-noncurrent"] = true
+		case "reconnectRace":
+			// the old connection is reaped at (almost) the same moment the host registers on a new one, repeatedly,
+			// in truly parallel goroutines: whichever comes first, the new registration must survive
+			h := rapid.IntRange(0, nHosts-1).Draw(rt, "host")
+			reps := rapid.IntRange(3, 12).Draw(rt, "reps")
+			for r := 0; r < reps; r++ {
+				cur := s.openConn(h, "")
+				s.model.connect(s.agents[h].id.nodeID, cur.id, true, "geth", "")
+				if err := s.connect(h, cur, true, "geth", ""); err != nil {
+					fail("host connect: %v", err)
+				}
+				next := s.openConn(h, "")
+				spin := rapid.IntRange(0, 60000).Draw(rt, "spin")
+				var wg sync.WaitGroup
+				wg.Add(2)
+				var cerr error
+				go func() { defer wg.Done(); cerr = s.connect(h, next, true, "geth", "") }()
+				go func() {
+					defer wg.Done()
+					x := 0
+					for i := 0; i < spin; i++ {
+						x += i
+					}
+					_ = x
+					cur.c.agentEnd.Close()
+				}()
+				wg.Wait()
+				<-cur.c.served
+				<-cur.c.agentDone
+				cur.open = false
+				s.model.closeConn(cur.id)
+				s.model.connect(s.agents[h].id.nodeID, next.id, true, "geth", "")
+				if cerr != nil {
+					fail("host reconnect: %v", cerr)
+				}
+				if got, want := s.pool.NumRemotes(), s.model.numLive(); got != want {
+					fail("host %s re-registered on conn#%d while its old conn#%d was being reaped: the pool now counts %d connected hosts, %d have a live registered connection", s.agents[h].id.name, next.id, cur.id, got, want)
+				}
+			}
+			logf("host %s: %d times re-register while the old connection is reaped concurrently", s.agents[h].id.name, reps)
+			classes["reconnect-race"] = true
+			classes["reconnect"] = true
+			classes["close-noncurrent"] = true
 		case "reregDuring":
 			// a peer request has picked the host's connection but not yet written to it; meanwhile the host
 			// re-registers on a new connection and the old one closes; the late write then fails
